@@ -318,3 +318,42 @@ Proof. intros Hs Hsorted chosen. unfold chosen, select_tail, dyn_slice, slice, c
   apply In_nth with (d := O) in Hr. destruct Hr as (i & Hi & <-).
   rewrite skipn_length in Hj. rewrite firstn_length in Hi.
   rewrite nth_skipn. rewrite nth_firstn_lt by lia. apply Hsorted. lia. Qed.
+
+(* top_k oracle (descending, dominating the rest): the first s entries are the s largest *)
+Lemma topk_prefix_dominates (mse : nat -> Z) (top : list nat) (N s : nat) :
+  (forall i j, i <= j < length top -> (mse (nth j top O) <= mse (nth i top O))%Z) ->
+  (forall k r, In k top -> r < N -> ~ In r top -> (mse r <= mse k)%Z) ->
+  forall k r, In k (firstn s top) -> r < N -> ~ In r (firstn s top) -> (mse r <= mse k)%Z.
+Proof. intros Hsorted Hdom k r Hk Hr Hnr.
+  destruct (in_dec Nat.eq_dec r top) as [Hin|Hnin].
+  - apply In_nth with (d := O) in Hk. destruct Hk as (i & Hi & <-). rewrite firstn_length in Hi.
+    apply In_nth with (d := O) in Hin. destruct Hin as (j & Hj & <-).
+    rewrite nth_firstn_lt by lia.
+    destruct (Nat.lt_ge_cases j s) as [Hlt|Hge].
+    + exfalso. apply Hnr. rewrite <- (nth_firstn_lt top s j O Hlt). apply nth_In. rewrite firstn_length. lia.
+    + apply Hsorted. lia.
+  - apply Hdom; [eapply In_firstn; exact Hk|exact Hr|exact Hnin]. Qed.
+Lemma select_pairs_spec nx top st sx :
+  select_pairs nx top st sx = (map (fun k => k / nx) (firstn st top), map (fun k => k mod nx) (firstn sx top)).
+Proof. unfold select_pairs, unravel. cbn [fst snd]. rewrite !firstn_map. reflexivity. Qed.
+
+(* a reshuffle driven by the probabilities keeps the active slots active, as a set *)
+From Coq Require Import Permutation.
+Section Reshuffle.
+Context {A : Type}.
+Variable Gc : cursor_gen.
+Variable perm : nat -> list A -> list A.
+Variable a : nat.
+(* jax.random.choice(..., replace=False, p): entries with p = 0 come last, in store order *)
+Hypothesis perm_p : forall r l, Permutation (firstn a (perm r l)) (firstn a l) /\ skipn a (perm r l) = skipn a l.
+Lemma get_keeps_active b n_eff (c : @cst A) :
+  Permutation (firstn a (store (fst (get Gc perm b n_eff c)))) (firstn a (store c)) /\
+  skipn a (store (fst (get Gc perm b n_eff c))) = skipn a (store c).
+Proof. unfold get. destruct (do_reset Gc b n_eff c); cbn [fst store]; [apply perm_p|split; [apply Permutation_refl|reflexivity]]. Qed.
+Lemma state_keeps_active b n_eff k (c : @cst A) :
+  Permutation (firstn a (store (state Gc perm b n_eff k c))) (firstn a (store c)) /\
+  skipn a (store (state Gc perm b n_eff k c)) = skipn a (store c).
+Proof. induction k as [|k [IH1 IH2]]; cbn [state]; [split; [apply Permutation_refl|reflexivity]|].
+  destruct (get_keeps_active b n_eff (state Gc perm b n_eff k c)) as [H1 H2].
+  split; [eapply Permutation_trans; eassumption|congruence]. Qed.
+End Reshuffle.
